@@ -147,6 +147,10 @@ def run_config(cx, cfg, prog):
                               'is violated (%s): those handlers abort when the invariant is broken at run time' % (
                                   name, n_dep, '; '.join(v.key for v in broken)), loc=prop)
 
+        # facts re-located from the validators (D2) for MODE arguments hold only if the handler takes an argument exactly where
+        # validate_channelmodes counted one
+        depends(cx, inv, 'C08', ('R8.8',), 'validated MODE arguments reach the letter they were validated for', prog=prog)
+
     # ---------------------------------------------------------------- R5.2 D-io
     r2 = cx.rule('R5.2' + ('@' + cfg if cfg != 'default' else ''), 'no I/O await under a state guard', floor=100, kind='effect')
     local_async = {}
